@@ -78,7 +78,7 @@ func plans(prop string, thorough bool, seed int64) []plan {
 			tH, tB := 40*time.Second, 40*time.Second
 			if thorough {
 				kH, kB = 3, 2
-				tH, tB = 4*time.Minute, 4*time.Minute
+				tH, tB = 100*time.Second, 100*time.Second
 			}
 			out = append(out, plan{sc, livenessMode("honest-deviations", false), kH, tH})
 			if sc.Byz >= 0 {
@@ -89,7 +89,7 @@ func plans(prop string, thorough bool, seed int64) []plan {
 			tH, tB := 25*time.Second, 25*time.Second
 			if thorough {
 				kH, kB = 3, 2
-				tH, tB = 3*time.Minute, 4*time.Minute
+				tH, tB = 100*time.Second, 100*time.Second
 			}
 			out = append(out, plan{sc, safetyMode(prop, "honest-deviations", false), kH, tH})
 			if sc.Byz >= 0 {
@@ -102,7 +102,7 @@ func plans(prop string, thorough bool, seed int64) []plan {
 		k := 1
 		t := 20 * time.Second
 		if thorough {
-			k, t = 2, 3*time.Minute
+			k, t = 2, 100*time.Second
 		}
 		var m Mode
 		if prop == "C06" {
